@@ -247,7 +247,8 @@ def meta_to_job(prog: dict, meta: dict) -> dict | None:
     if k == "operator":
         return {"kind": "operator", "prog": prog, "seeds": [meta["seed"]],
                 "opts": {"pause_at": meta["pause_at"], "unpause_after": meta["unpause_after"], "restart": meta["restart"],
-                         "shuffle": meta["shuffle"], "hold": meta.get("hold", "")}}
+                         "shuffle": meta["shuffle"], "hold": meta.get("hold", ""), "restart_at": meta.get("restart_at", -1),
+                         "signal_after": meta.get("signal_after", False)}}
     if k == "pollcrash":
         return {"kind": "pollcrash", "prog": prog, "cases": [meta["times"]]}
     if k == "signal-crash":
